@@ -435,6 +435,10 @@ func (c *FnCtx) typeAssume(st *State, v *Val) {
 		if u.Info()&types.IsInteger != 0 {
 			c.assume(intRange(T, v.S))
 		}
+		if u.Info()&types.IsString != 0 && v.S != "str_empty" {
+			// ground instances of the string axioms (no quantifiers: keeps `sat` answers decidable)
+			c.assume(and(app(">=", app("str_len", v.S), "0"), implies(eq(app("str_len", v.S), "0"), eq(v.S, "str_empty"))))
+		}
 	case *types.Slice:
 		c.assume(and(app("<=", "0", app("s_len", v.S)), app("<=", app("s_len", v.S), app("s_cap", v.S)), app("<=", "0", app("s_off", v.S)),
 			app("<=", app("+", app("s_off", v.S), app("s_cap", v.S)), "4611686018427387904"),
@@ -591,7 +595,14 @@ func (c *FnCtx) box(v *Val) Term {
 	if srt == "Int" {
 		return app("mk_iface", tag, v.S)
 	}
-	return app("mk_iface", tag, app(c.boxFn(srt), v.S))
+	bf := c.boxFn(srt)
+	key := "unbox:" + srt + ":" + v.S
+	if !c.assumed[key] {
+		c.assumed[key] = true
+		// ground instance of unbox(box(x)) == x
+		c.assume(eq(app("unbox."+sym(srt), app(bf, v.S)), v.S))
+	}
+	return app("mk_iface", tag, app(bf, v.S))
 }
 
 func (c *FnCtx) boxFn(srt string) string {
@@ -600,7 +611,6 @@ func (c *FnCtx) boxFn(srt string) string {
 		c.declare(f, fmt.Sprintf("(declare-fun %s (%s) Int)", f, srt))
 		u := "unbox." + sym(srt)
 		c.declare(u, fmt.Sprintf("(declare-fun %s (Int) %s)", u, srt))
-		c.assume(fmt.Sprintf("(forall ((x %s)) (! (= (%s (%s x)) x) :pattern ((%s x))))", srt, u, f, f))
 	}
 	return f
 }
@@ -1204,8 +1214,9 @@ func (c *FnCtx) safety(st *State, ins ssa.Instruction, what string, cond Term) {
 		return
 	}
 	c.emit(&Obligation{Name: fmt.Sprintf("%s.safety.%s", c.spec.oname(), what), Kind: "safety", Clause: what, Where: c.where(ins), Hyp: st.pc, Goal: cond})
-	// subsequent reasoning may rely on it (the instruction would have panicked otherwise)
-	c.assume(implies(st.pc, cond))
+	// execution only continues past the instruction when the condition holds (it
+	// panics otherwise): strengthen the path condition, never assert globally
+	st.pc = c.define("pc.safe", "Bool", and(st.pc, cond))
 }
 
 func (c *FnCtx) execBlock(st *State, b *ssa.BasicBlock) {
@@ -1435,10 +1446,11 @@ func (c *FnCtx) mapGet(st *State, mT types.Type, m, k Term) (val Term, has Term)
 	vh := c.heapGet(st, vn, vs)
 	has = app("select", app("select", d, m), k)
 	val = ite(has, app("select", app("select", vh, m), k), c.zero(V))
-	key := "nilmap:" + d
+	// a nil map has no keys (ground instance; writes to a nil map panic)
+	key := "nilmap:" + d + ":" + m + ":" + k
 	if !c.assumed[key] {
 		c.assumed[key] = true
-		c.assume(fmt.Sprintf("(forall ((k %s)) (! (not (select (select %s 0) k)) :pattern ((select (select %s 0) k))))", c.sortOf(K), d, d))
+		c.assume(implies(eq(m, "0"), not(app("select", app("select", d, "0"), k))))
 	}
 	return
 }
@@ -1558,11 +1570,19 @@ func isIntT(t types.Type) (*types.Basic, bool) {
 func (c *FnCtx) wrap(b *types.Basic, t Term) Term {
 	bits, signed := intWidth(b)
 	m := pow2(bits)
+	lo, hi := intBounds(b)
+	// in-range values are unchanged: lets the solver avoid mod in the common case
+	x := t
+	if len(t) > 30 && c.qDepth == 0 {
+		x = c.fresh("raw", "Int")
+		c.assume(eq(x, t))
+	}
+	inr := and(app("<=", lo, x), app("<=", x, hi))
 	if !signed {
-		return app("mod", t, m)
+		return ite(inr, x, app("mod", x, m))
 	}
 	h := pow2(bits - 1)
-	return app("-", app("mod", app("+", t, h), m), h)
+	return ite(inr, x, app("-", app("mod", app("+", x, h), m), h))
 }
 
 func (c *FnCtx) doBinOp(st *State, x *ssa.BinOp) {
@@ -1591,7 +1611,7 @@ func (c *FnCtx) doBinOp(st *State, x *ssa.BinOp) {
 		if c.spec != nil && c.spec.arithChecked && !c.dry {
 			lo, hi := intBounds(ib)
 			c.emit(&Obligation{Name: fmt.Sprintf("%s.arith.no-overflow", c.spec.oname()), Kind: "arith", Clause: "no overflow in " + x.String(), Where: c.where(x), Hyp: st.pc, Goal: and(app("<=", lo, raw), app("<=", raw, hi))})
-			c.assume(implies(st.pc, and(app("<=", lo, raw), app("<=", raw, hi))))
+			st.pc = c.define("pc.arith", "Bool", and(st.pc, and(app("<=", lo, raw), app("<=", raw, hi))))
 			return raw
 		}
 		return c.wrap(ib, raw)
@@ -1600,6 +1620,7 @@ func (c *FnCtx) doBinOp(st *State, x *ssa.BinOp) {
 	case token.ADD:
 		if isStr {
 			r = app("str_concat", as, bs)
+			c.assume(eq(app("str_len", r), app("+", app("str_len", as), app("str_len", bs))))
 		} else {
 			r = arith("+")
 		}
@@ -1731,30 +1752,63 @@ func (c *FnCtx) doTypeAssert(st *State, x *ssa.TypeAssert) {
 	c.regs[x] = c.mk(at, res)
 }
 
+func itHeap(x *ssa.Range) string { return "IT|" + x.Name() }
+
 func (c *FnCtx) doRange(st *State, x *ssa.Range) {
-	// iterator object: ghost visited-set / position handled in doNext
+	// iterator object; for maps a ghost set of already visited keys
 	c.regs[x] = c.mk(x.Type(), c.fresh("iter."+x.Name(), "Int"))
+	if _, isM := x.X.Type().Underlying().(*types.Map); isM {
+		K, _ := mapKV(x.X.Type())
+		srt := "(Array " + c.sortOf(K) + " Bool)"
+		c.heapGet(st, itHeap(x), srt)
+		c.heapSet(st, itHeap(x), srt, fmt.Sprintf("((as const %s) false)", srt))
+	}
 }
 
 func (c *FnCtx) doNext(st *State, x *ssa.Next) {
-	// arbitrary-order iteration: ok and the key/value are unconstrained except
-	// that ok implies the key is in the map's domain (for maps).
+	// Maps are iterated in ARBITRARY order: the key is any not yet visited key of
+	// the domain; when the iteration ends every key of the domain has been visited.
 	ok := c.fresh(x.Name()+".ok", "Bool")
 	tup := x.Type().(*types.Tuple)
-	kv := c.freshOf(st, tup.At(1).Type(), x.Name()+".k")
-	vv := c.freshOf(st, tup.At(2).Type(), x.Name()+".v")
-	if rg, isR := x.Iter.(*ssa.Range); isR && !x.IsString {
+	isInvalid := func(t types.Type) bool {
+		b, isB := t.Underlying().(*types.Basic)
+		return isB && b.Kind() == types.Invalid
+	}
+	var kv, vv *Val
+	rg, isR := x.Iter.(*ssa.Range)
+	if isR && !x.IsString {
 		if _, isM := rg.X.Type().Underlying().(*types.Map); isM {
+			K, V := mapKV(rg.X.Type())
 			m := c.val(st, rg.X)
-			_, isInv := tup.At(1).Type().Underlying().(*types.Basic)
-			if !(isInv && tup.At(1).Type().Underlying().(*types.Basic).Kind() == types.Invalid) {
-				val, has := c.mapGet(st, rg.X.Type(), m.S, kv.S)
-				c.assume(implies(ok, has))
-				if b, isB := tup.At(2).Type().Underlying().(*types.Basic); !(isB && b.Kind() == types.Invalid) {
-					c.assume(implies(ok, eq(vv.S, val)))
-				}
+			kv = c.freshOf(st, K, x.Name()+".k")
+			val, has := c.mapGet(st, rg.X.Type(), m.S, kv.S)
+			srt := "(Array " + c.sortOf(K) + " Bool)"
+			vis := c.heapGet(st, itHeap(rg), srt)
+			c.assume(implies(ok, and(has, not(app("select", vis, kv.S)))))
+			dn, ds, _, _ := c.mapHeaps(K, V)
+			d := c.heapGet(st, dn, ds)
+			c.assume(implies(not(ok), fmt.Sprintf("(forall ((k %s)) (! (=> (select (select %s %s) k) (select %s k)) :pattern ((select (select %s %s) k)) :pattern ((select %s k))))", c.sortOf(K), d, m.S, vis, d, m.S, vis)))
+			c.heapSet(st, itHeap(rg), srt, ite(ok, app("store", vis, kv.S, "true"), vis))
+			vv = c.mk(V, c.define(x.Name()+".v", c.sortOf(V), val))
+			c.typeAssume(st, vv)
+			if isInvalid(tup.At(1).Type()) {
+				kv = &Val{T: tup.At(1).Type(), S: "0"}
 			}
+			if isInvalid(tup.At(2).Type()) {
+				vv = &Val{T: tup.At(2).Type(), S: "0"}
+			}
+			c.trusted["maps are not modified while being ranged over (checked only syntactically)"] = true
 		}
+	}
+	if kv == nil {
+		mkv := func(t types.Type, n string) *Val {
+			if isInvalid(t) {
+				return &Val{T: t, S: "0"}
+			}
+			return c.freshOf(st, t, n)
+		}
+		kv = mkv(tup.At(1).Type(), x.Name()+".k")
+		vv = mkv(tup.At(2).Type(), x.Name()+".v")
 	}
 	c.regs[x] = &Val{T: x.Type(), Tup: []*Val{c.mk(types.Typ[types.Bool], ok), kv, vv}}
 }
